@@ -105,8 +105,16 @@ class CallGraph:
                     q.append(y)
         return None
 
-    def callers_of(self, target):
-        return set(self.redges.get(target, ()))
+    def callers_of(self, target, _depth=0):
+        """Direct callers; a helper that is analysed inlined into its callers (vlib/inline.py) is replaced by those callers."""
+        out = set()
+        for c in self.redges.get(target, ()):
+            f = self.facts.fns.get(_CLOS.sub("", c))
+            if f is not None and getattr(f, "absorbed", False) and _depth < 4:
+                out |= self.callers_of(f.def_, _depth + 1)
+            else:
+                out.add(c)
+        return out
 
     def sccs(self, nodes):
         """Tarjan SCCs restricted to `nodes`; returns list of frozensets with a cycle (size>1 or self-loop)."""
